@@ -745,6 +745,31 @@ fn narrow_verdict(
     }
 }
 
+/// K2 (pivot chosen by rounded distances) lets a low side receive items whose weight was not counted:
+/// the weight handed down to that child is smaller than the child's real weight, and `sum - weight_left`
+/// goes below zero there. A signed type carries that like the i64 run does; an UNSIGNED type panics
+/// (`attempt to subtract with overflow`; it wraps without overflow checks). That deviation of an unsigned
+/// run is a consequence of the known K2, proven by the i64 replay (a node whose passed-down sum is not
+/// its weight, below a node with the K2 symptom): it is labelled as such, not as a weight-type defect.
+fn relabel_k2_unsigned(ctx: &mut Ctx, var: Option<&str>, nodes: &[NodeOut], extra: &mut [(String, String)]) {
+    let Some(v) = var else { return };
+    if !v.starts_with("wt_u") || !nodes.iter().any(|nd| nd.drift && nd.k2_above && !nd.anomalous) {
+        return;
+    }
+    for (sig, what) in extra.iter_mut() {
+        let algo = sig.rsplit('@').next().unwrap_or("rcb").to_string();
+        let explained = (sig.starts_with("weight-type-panic@") && what.contains("attempt to subtract with overflow"))
+            || sig.starts_with("weight-type-dependent@");
+        if explained {
+            ctx.count("narrow:unsigned_deviation_below_k2_sum_drift");
+            *sig = format!("{}:unsigned-weight-underflow@{}", SIG_K2, algo);
+            what.push_str(
+                " [the i64 replay shows the cause: below a node with the K2 symptom a child was handed a sum smaller than its real weight, so `sum - weight_left` is negative there, which an unsigned weight type cannot hold]",
+            );
+        }
+    }
+}
+
 /// The frame hook in a 1-thread pool (parallel `f64` sums are only deterministic there): the
 /// points as Rib's inner Rcb sees them, flat and point-major. `Ok(None)`: no frame.
 fn frame(d: usize, xs: &[f64]) -> Caught<Option<Vec<f64>>> {
@@ -1322,6 +1347,7 @@ fn run_tree(ctx: &mut Ctx, op: &str, rib: bool, d: usize, iter: usize, tol: f64,
                 ),
             ));
         }
+        relabel_k2_unsigned(ctx, var.as_deref(), &nodes, &mut extra);
         verdicts.extend(extra);
         finish(ctx, op, "ok large-n replay-differs".into(), false, verdicts);
         return;
@@ -1331,10 +1357,12 @@ fn run_tree(ctx: &mut Ctx, op: &str, rib: bool, d: usize, iter: usize, tol: f64,
         // on the unchanged tree): the causes cannot be attributed, but the property can still be
         // judged on the ids alone.
         ctx.count("replay_mismatch");
-        let verdicts = match ids_only_unbalanced(d, iter, tol, &ws, pts, &ids) {
+        let mut verdicts = match ids_only_unbalanced(d, iter, tol, &ws, pts, &ids) {
             Some(what) if !ws.iter().any(|&w| w < 0) => vec![("rcb-unbalanced-unreplayable".to_string(), what)],
             _ => vec![],
         };
+        // a deviating narrow-weight-type run stays a failure of its own
+        verdicts.extend(extra.into_iter().filter(|(sig, _)| sig.starts_with("weight-type")));
         finish(ctx, op, "replay-mismatch".into(), false, verdicts);
         return;
     }
@@ -1367,6 +1395,7 @@ fn run_tree(ctx: &mut Ctx, op: &str, rib: bool, d: usize, iter: usize, tol: f64,
         judge(ctx, &nodes)
     };
     let mut verdicts = verdicts;
+    relabel_k2_unsigned(ctx, var.as_deref(), &nodes, &mut extra);
     verdicts.extend(extra);
     finish(ctx, op, out, n >= 2 && iter >= 1, verdicts);
 }
